@@ -490,12 +490,211 @@ fn probe_cases(g: &mut Gen, thorough: bool) {
     }
 }
 
+// ------------------------------------------------------------------ HISTORIES on one cone object
+// After every step the complete observable state of the cone that lived through the history must be
+// bit-identical to that of a fresh cone brought there by this step alone, must agree with the model
+// evaluated from this step's (s, z) alone, and the KKT block must be the operator of mul_Hs.
+#[derive(Clone)]
+enum Step { Upd(Vec<f64>, Vec<f64>), Ident }
+
+fn ops_obs<C: Cone<f64> + SymmetricCone<f64>>(c: &mut C, x: &[f64], hslen: usize) -> (Vec<f64>, Vec<f64>, Vec<f64>) {
+    // (everything for the bitwise comparison, hs block, mul_Hs x)
+    let n = x.len();
+    let mut all = vec![];
+    for &(a, b) in &[(1.0, 0.0), (0.0, 2.0), (2.0, 0.5)] {
+        let mut y = garbage(n);
+        vh::mul_W(c, false, &mut y, x, a, b);
+        all.extend(y);
+        let mut y = garbage(n);
+        vh::mul_Winv(c, false, &mut y, x, a, b);
+        all.extend(y);
+    }
+    let mut hsx = garbage(n);
+    let mut work = garbage(n);
+    c.mul_Hs(&mut hsx, x, &mut work);
+    let mut hs = garbage(hslen);
+    c.get_Hs(&mut hs);
+    all.extend(hsx.iter().cloned());
+    all.extend(hs.iter().cloned());
+    (all, hs, hsx)
+}
+
+fn soc_history(g: &mut Gen, n: usize, steps: &[Step], x: &[f64], tag: &str) {
+    let input = json!({"cone": "soc", "history": steps.iter().map(|s| match s { Step::Upd(a, b) => json!({"s": a, "z": b}), Step::Ident => json!("identity") }).collect::<Vec<_>>(), "x": x});
+    let r = guarded(|| {
+        let mut c = vh::SecondOrderCone::<f64>::new(n);
+        let sparse = c.is_sparse_expandable();
+        let hslen = if sparse { n } else { n * (n + 1) / 2 };
+        let state = |c: &vh::SecondOrderCone<f64>, with_lam: bool| -> Vec<f64> {
+            let mut v = cat(&[&c.w, &[c.η]]);
+            if with_lam { v.extend(c.λ.iter().cloned()); }
+            if let Some(sd) = &c.sparse_data { v.extend(cat(&[&sd.u, &sd.v, &[sd.d]])); }
+            v
+        };
+        let mut parts: Vec<String> = vec![];
+        for st in steps {
+            let mut f = vh::SecondOrderCone::<f64>::new(n);
+            let is_upd = matches!(st, Step::Upd(_, _));
+            match st {
+                Step::Upd(s, z) => {
+                    let ok1 = c.update_scaling(s, z, 1.0, ScalingStrategy::PrimalDual);
+                    let ok2 = f.update_scaling(s, z, 1.0, ScalingStrategy::PrimalDual);
+                    if !(ok1 && ok2) { return None; }
+                }
+                Step::Ident => { c.set_identity_scaling(); f.set_identity_scaling(); }
+            }
+            let (oc, hs, hsx) = ops_obs(&mut c, x, hslen);
+            let (of, _, _) = ops_obs(&mut f, x, hslen);
+            let a = cat(&[&state(&c, is_upd), &oc]);
+            let b = cat(&[&state(&f, is_upd), &of]);
+            if !a.iter().chain(b.iter()).all(|v| v.is_finite()) { return None; }
+            parts.push(format!("c_bitsame {} {}", cfllist(&a), cfllist(&b)));
+            let (u, v, d) = match &c.sparse_data { Some(sd) => (sd.u.clone(), sd.v.clone(), sd.d), None => (vec![], vec![], 0.0) };
+            if sparse {
+                parts.push(format!("p_hs_sparse (-40) {} {} {} {} {} {}", cdylist(&hs), cdylist(&u), cdylist(&v), cdy(c.η), cdylist(x), cdylist(&hsx)));
+            } else {
+                parts.push(format!("p_hs_dense (-40) {} {} {}", cdylist(&hs), cdylist(x), cdylist(&hsx)));
+            }
+            if let Step::Upd(s, z) = st {
+                parts.push(format!("c_soc_state (0x1p-40)%float {} {} {} {} {} {} {} {} {}", cfllist(s), cfllist(z), cfllist(&c.w), cfllist(&c.λ), cfl(c.η), cfllist(&u), cfllist(&v), cfl(d), cfllist(&hs)));
+                parts.push(format!("p_soc_nt (-33) {} {} {} {} {}", cdylist(s), cdylist(z), cdylist(&c.w), cdylist(&c.λ), cdy(c.η)));
+                // the block written into the KKT matrix maps z to s  ((W'W) z = s)
+                if sparse {
+                    parts.push(format!("p_hs_sparse (-33) {} {} {} {} {} {}", cdylist(&hs), cdylist(&u), cdylist(&v), cdy(c.η), cdylist(z), cdylist(s)));
+                } else {
+                    parts.push(format!("p_hs_dense (-33) {} {} {}", cdylist(&hs), cdylist(z), cdylist(s)));
+                }
+            }
+        }
+        Some(parts)
+    });
+    match r {
+        Some(Some(parts)) => { g.sink.case("soc_history", input, format!("(maxl [{}])", parts.join("; ")), &["history", tag]); g.count(&format!("history/soc/{}", if n > 4 { "sparse" } else { "dense" })); }
+        _ => g.sink.case("soc_history", input, "1%N".into(), &["history", tag, "panic-or-nonfinite-or-refused"]),
+    }
+}
+
+fn nn_history(g: &mut Gen, n: usize, steps: &[Step], x: &[f64]) {
+    let input = json!({"cone": "nn", "history": steps.iter().map(|s| match s { Step::Upd(a, b) => json!({"s": a, "z": b}), Step::Ident => json!("identity") }).collect::<Vec<_>>(), "x": x});
+    let r = guarded(|| {
+        let mut c = vh::NonnegativeCone::<f64>::new(n);
+        let mut parts: Vec<String> = vec![];
+        for st in steps {
+            let mut f = vh::NonnegativeCone::<f64>::new(n);
+            let is_upd = matches!(st, Step::Upd(_, _));
+            match st {
+                Step::Upd(s, z) => { c.update_scaling(s, z, 1.0, ScalingStrategy::PrimalDual); f.update_scaling(s, z, 1.0, ScalingStrategy::PrimalDual); }
+                Step::Ident => { c.set_identity_scaling(); f.set_identity_scaling(); }
+            }
+            let (oc, hs, hsx) = ops_obs(&mut c, x, n);
+            let (of, _, _) = ops_obs(&mut f, x, n);
+            let st_c = if is_upd { cat(&[c.verif_w(), c.verif_lambda()]) } else { c.verif_w().to_vec() };
+            let st_f = if is_upd { cat(&[f.verif_w(), f.verif_lambda()]) } else { f.verif_w().to_vec() };
+            let (a, b) = (cat(&[&st_c, &oc]), cat(&[&st_f, &of]));
+            if !a.iter().chain(b.iter()).all(|v| v.is_finite()) { return None; }
+            parts.push(format!("c_bitsame {} {}", cfllist(&a), cfllist(&b)));
+            parts.push(format!("p_hs_diag (-44) {} {} {}", cdylist(&hs), cdylist(x), cdylist(&hsx)));
+            if let Step::Upd(s, z) = st {
+                parts.push(format!("c_nn_state (0x1p-44)%float {} {} {} {} {}", cfllist(s), cfllist(z), cfllist(c.verif_w()), cfllist(c.verif_lambda()), cfllist(&hs)));
+                parts.push(format!("p_nn_nt (-44) {} {} {} {}", cdylist(s), cdylist(z), cdylist(c.verif_w()), cdylist(c.verif_lambda())));
+            }
+        }
+        Some(parts)
+    });
+    match r {
+        Some(Some(parts)) => { g.sink.case("nn_history", input, format!("(maxl [{}])", parts.join("; ")), &["history"]); g.count("history/nn"); }
+        _ => g.sink.case("nn_history", input, "1%N".into(), &["history", "panic-or-nonfinite"]),
+    }
+}
+
+fn psd_history(g: &mut Gen, n: usize, steps: &[(Option<(Mat, Mat)>,)], X: &Mat) {
+    let x = svec(X);
+    let nv = x.len();
+    let hslen = nv * (nv + 1) / 2;
+    let input = json!({"cone": "psd", "n": n, "history": steps.iter().map(|s| match &s.0 { Some((a, b)) => json!({"S": a, "Z": b}), None => json!("identity") }).collect::<Vec<_>>(), "X": X});
+    let r = guarded(|| {
+        let mut c = vh::PSDTriangleCone::<f64>::new(n);
+        let mut parts: Vec<String> = vec![];
+        for st in steps {
+            let mut f = vh::PSDTriangleCone::<f64>::new(n);
+            match &st.0 {
+                Some((S, Z)) => {
+                    let (s, z) = (svec(S), svec(Z));
+                    if !(c.update_scaling(&s, &z, 1.0, ScalingStrategy::PrimalDual) && f.update_scaling(&s, &z, 1.0, ScalingStrategy::PrimalDual)) { return None; }
+                }
+                None => { c.set_identity_scaling(); f.set_identity_scaling(); }
+            }
+            let (oc, hs, hsx) = ops_obs(&mut c, &x, hslen);
+            let (of, _, _) = ops_obs(&mut f, &x, hslen);
+            let is_upd = st.0.is_some();
+            let st_c = if is_upd { cat(&[c.verif_lambda(), &c.verif_R(), &c.verif_Rinv()]) } else { cat(&[&c.verif_R(), &c.verif_Rinv()]) };
+            let st_f = if is_upd { cat(&[f.verif_lambda(), &f.verif_R(), &f.verif_Rinv()]) } else { cat(&[&f.verif_R(), &f.verif_Rinv()]) };
+            let (a, b) = (cat(&[&st_c, &oc]), cat(&[&st_f, &of]));
+            if !a.iter().chain(b.iter()).all(|v| v.is_finite()) { return None; }
+            parts.push(format!("c_bitsame {} {}", cfllist(&a), cfllist(&b)));
+            parts.push(format!("p_hs_dense (-30) {} {} {}", cdylist(&hs), cdylist(&x), cdylist(&hsx)));
+            if let Some((S, Z)) = &st.0 {
+                parts.push(format!("p_psd_nt (-30) {} {} {} {} {} {}", n, cdylist(&c.verif_R()), cdylist(&c.verif_Rinv()), cdylist(c.verif_lambda()), cdymat(S), cdymat(Z)));
+            }
+        }
+        Some(parts)
+    });
+    match r {
+        Some(Some(parts)) => { g.sink.case("psd_history", input, format!("(maxl [{}])", parts.join("; ")), &["history"]); g.count("history/psd"); }
+        _ => g.sink.case("psd_history", input, "1%N".into(), &["history", "panic-or-nonfinite-or-refused"]),
+    }
+}
+
+fn histories(g: &mut Gen, thorough: bool) {
+    let dims: &[usize] = if thorough { &[2, 3, 4, 5, 6, 8, 9, 12] } else { &[3, 4, 5, 8, 12] };
+    for &n in dims {
+        let e0 = |v: f64| -> Vec<f64> { let mut t = vec![0.0; n]; t[0] = v; t };
+        let gen = |g: &mut Gen, m: f64| Step::Upd(soc_interior(&mut g.rng, n, 1.0, m), soc_interior(&mut g.rng, n, 1.0, 2.0 * m));
+        let axis_e = Step::Upd(e0(1.0), e0(1.0));
+        let axis_zero_tails = Step::Upd(e0(2.0), e0(8.0));
+        let axis_aligned = { let mut s = e0(3.0); s[1] = 1.0; let mut z = e0(2.0); z[n - 1] = -1.0; Step::Upd(s, z) };
+        let tiny = |t: f64| { let mut s = e0(2.0); s[1] = t; let mut z = e0(3.0); z[n - 1] = -t; Step::Upd(s, z) };
+        let x: Vec<f64> = (0..n).map(|_| (g.rng.unit() - 0.5) * 4.0 + 0.25).collect();
+        let hs: Vec<(Vec<Step>, &str)> = vec![
+            (vec![gen(g, 1.0), axis_e.clone()], "gen-axis"),
+            (vec![gen(g, 1.0), axis_zero_tails.clone(), gen(g, 0.5)], "gen-zerotails-gen"),
+            (vec![gen(g, 3.0), Step::Ident, axis_aligned.clone(), axis_e.clone()], "gen-ident-aligned-axis"),
+            (vec![gen(g, 1.0), tiny(1e-200)], "gen-tiny200"),
+            (vec![gen(g, 1.0), tiny(1e-17), Step::Ident, gen(g, 2.0)], "gen-tiny17-ident-gen"),
+            (vec![axis_e.clone(), gen(g, 1.0), axis_zero_tails.clone(), Step::Ident], "axis-gen-zerotails-ident"),
+        ];
+        for (h, tag) in hs.iter() { soc_history(g, n, h, &x, tag); }
+    }
+    for &n in &[1usize, 4] {
+        let gen = |g: &mut Gen| { let (s, z): (Vec<f64>, Vec<f64>) = (0..n).map(|_| nn_pair(&mut g.rng)).unzip(); Step::Upd(s, z) };
+        let x: Vec<f64> = (0..n).map(|_| (g.rng.unit() - 0.5) * 4.0).collect();
+        let ones = Step::Upd(vec![1.0; n], vec![1.0; n]);
+        let h1 = vec![gen(g), ones.clone(), gen(g)];
+        nn_history(g, n, &h1, &x);
+        let h2 = vec![gen(g), Step::Ident, ones, Step::Ident];
+        nn_history(g, n, &h2, &x);
+    }
+    if blas_shim::AVAILABLE {
+        for &n in &[1usize, 3] {
+            let eye = |v: f64| -> Mat { let mut m = vec![vec![0.0; n]; n]; for k in 0..n { m[k][k] = v; } m };
+            let gen = |g: &mut Gen| (Some((psd_matrix(&mut g.rng, n, 0.3, 1.0), psd_matrix(&mut g.rng, n, 0.3, 2.0))),);
+            let X = sym_matrix(&mut g.rng, n, 2.0);
+            let diag = { let mut a = eye(1.0); let mut b = eye(1.0); for k in 0..n { a[k][k] = 1.0 + k as f64; b[k][k] = 4.0 / (1.0 + k as f64); } (Some((a, b)),) };
+            let h1 = vec![gen(g), (Some((eye(1.0), eye(1.0))),), gen(g)];
+            psd_history(g, n, &h1, &X);
+            let h2 = vec![gen(g), (None,), diag, (Some((eye(2.0), eye(8.0))),)];
+            psd_history(g, n, &h2, &X);
+        }
+    }
+}
+
 const AB: [(f64, f64); 4] = [(1.0, 0.0), (-1.0, 0.0), (2.0, 0.5), (0.5, -1.0)];
 
 fn generate(g: &mut Gen, thorough: bool) {
     let reps = if thorough { 8 } else { 2 };
     sequences(g, reps);
     probe_cases(g, thorough);
+    histories(g, thorough);
     for _ in 0..reps {
         for n in 1..=12usize {
             for mode in 0..3 {
